@@ -1007,3 +1007,538 @@ Proof.
   split; [vm_compute; reflexivity|]. split; [intros r [<-|[]]; vm_compute; reflexivity|].
   split; vm_compute; reflexivity.
 Qed.
+
+(* ---------- any path: links on the way, "." and ".." ---------- *)
+
+Lemma sub_refl fs : sub fs fs.
+Proof. intros q x H. exists x. split; [exact H | reflexivity]. Qed.
+
+Lemma sub_trans a b c : sub a b -> sub b c -> sub a c.
+Proof.
+  intros H1 H2 q x Hq. destruct (H1 q x Hq) as [y [Hy Hs]]. destruct (H2 q y Hy) as [z [Hz Hs']].
+  exists z. split; [exact Hz | congruence].
+Qed.
+
+Lemma sub_del fs p : sub (del fs p) fs.
+Proof.
+  intros q x' H. destruct p as [|c p]; [exists x'; split; [exact H | reflexivity]|].
+  destruct (comp_prefix (c :: p) q) eqn:E.
+  - apply comp_prefix_spec in E. destruct E as [r ->]. rewrite get_del_under in H by discriminate. discriminate.
+  - pose proof (get_del_frame_shallow (c :: p) fs q E) as F. rewrite H in F. cbn [option_map] in F.
+    destruct (get fs q) as [x|]; [|discriminate]. exists x. split; [reflexivity|]. cbn [option_map] in F. congruence.
+Qed.
+
+Lemma below_refl L fs : below L fs fs.
+Proof. split; [apply sub_refl | reflexivity]. Qed.
+
+Lemma below_trans L a b c : below L a b -> below L b c -> below L a c.
+Proof.
+  intros [S1 F1] [S2 F2]. split; [exact (sub_trans _ _ _ S1 S2)|].
+  intros q Hq. rewrite (F1 q Hq). exact (F2 q Hq).
+Qed.
+
+Lemma below_weaken D L a b : comp_prefix D L = true -> below L a b -> below D a b.
+Proof.
+  intros HD [S F]. split; [exact S|]. intros q Hq. apply F.
+  destruct (comp_prefix L q) eqn:E; [|reflexivity]. rewrite (comp_prefix_trans _ _ _ HD E) in Hq. discriminate.
+Qed.
+
+Lemma below_del L fs p : comp_prefix L p = true -> below L (del fs p) fs.
+Proof.
+  intros HL. split; [apply sub_del|]. intros q Hq.
+  destruct p as [|c p]; [reflexivity|]. apply get_del_frame_shallow.
+  destruct (comp_prefix (c :: p) q) eqn:E; [|reflexivity]. rewrite (comp_prefix_trans _ _ _ HL E) in Hq. discriminate.
+Qed.
+
+Lemma sub_dir fs' fs cwd es' : sub fs' fs -> get fs' cwd = Some (Dir es') -> exists es, get fs cwd = Some (Dir es).
+Proof.
+  intros Hs H. destruct (Hs cwd _ H) as [x [Hx Sx]]. destruct x as [n|s|es]; try discriminate. exists es. exact Hx.
+Qed.
+
+Lemma sub_entry fs' fs cwd es' es c y' :
+  sub fs' fs -> get fs' cwd = Some (Dir es') -> get fs cwd = Some (Dir es) -> assoc c es' = Some y' ->
+  exists y, assoc c es = Some y /\ shallow y = shallow y'.
+Proof.
+  intros Hs G' G A. assert (H : get fs' (cwd ++ [c]) = Some y') by (rewrite (get_snoc fs' cwd c es' G'); exact A).
+  destruct (Hs _ _ H) as [y [Hy Sy]]. rewrite (get_snoc fs cwd c es G) in Hy. exists y. split; assumption.
+Qed.
+
+(* deleting entries never makes a path resolve somewhere else: if it still resolves, it resolves where it did *)
+Lemma walk_sub fs' fs : sub fs' fs -> forall lk fl rest cwd d,
+  walk lk fs' fl cwd rest = WOk d -> walk lk fs fl cwd rest = WOk d.
+Proof.
+  intros Hs. induction lk as [|lk IHlk]; intros fl rest; induction rest as [|c rest IHr]; intros cwd d H;
+    try (rewrite walk_nil in *; exact H); rewrite walk_cons in H; rewrite walk_cons.
+  - destruct (is_dot c); [exact (IHr _ _ H)|]. destruct (is_dotdot c); [exact (IHr _ _ H)|].
+    destruct (get fs' cwd) as [[n|s|es']|] eqn:G; try discriminate.
+    destruct (sub_dir fs' fs cwd es' Hs G) as [es Ge]. rewrite Ge.
+    destruct (assoc c es') as [y'|] eqn:A; [|discriminate].
+    destruct (sub_entry fs' fs cwd es' es c y' Hs G Ge A) as [y [Ay Sy]]. rewrite Ay.
+    destruct y' as [n|s|e1]; destruct y as [n2|s2|e2]; cbn [shallow] in Sy; try discriminate.
+    + exact H.
+    + inversion Sy; subst. destruct (last_nofollow rest fl); [exact H | discriminate].
+    + exact (IHr _ _ H).
+  - destruct (is_dot c); [exact (IHr _ _ H)|]. destruct (is_dotdot c); [exact (IHr _ _ H)|].
+    destruct (get fs' cwd) as [[n|s|es']|] eqn:G; try discriminate.
+    destruct (sub_dir fs' fs cwd es' Hs G) as [es Ge]. rewrite Ge.
+    destruct (assoc c es') as [y'|] eqn:A; [|discriminate].
+    destruct (sub_entry fs' fs cwd es' es c y' Hs G Ge A) as [y [Ay Sy]]. rewrite Ay.
+    destruct y' as [n|s|e1]; destruct y as [n2|s2|e2]; cbn [shallow] in Sy; try discriminate.
+    + exact H.
+    + inversion Sy; subst. destruct (last_nofollow rest fl); [exact H | exact (IHlk _ _ _ _ H)].
+    + exact (IHr _ _ H).
+Qed.
+
+Lemma last_nofollow_true a : last_nofollow a true = false.
+Proof. destruct a; reflexivity. Qed.
+
+Lemma last_nofollow_app a b fl : b <> [] \/ fl = true -> last_nofollow (a ++ b) fl = false.
+Proof.
+  intros [Hb| ->]; [|apply last_nofollow_true].
+  destruct a as [|x a]; [destruct b; [contradiction | reflexivity] | reflexivity].
+Qed.
+
+(* resolving a ++ b is resolving a (following a final link) and then b from where that ended *)
+Lemma walk_app fs : forall lk fl a cwd b D es,
+  walk lk fs true cwd a = WOk D -> get fs D = Some (Dir es) -> b <> [] \/ fl = true ->
+  exists lk', walk lk fs fl cwd (a ++ b) = walk lk' fs fl D b.
+Proof.
+  induction lk as [|lk IHlk]; intros fl a; induction a as [|c a IHa]; intros cwd b D es H HD Hb.
+  - rewrite walk_nil in H. inversion H. exists O. reflexivity.
+  - rewrite walk_cons in H. cbn [app]. rewrite walk_cons.
+    destruct (is_dot c); [exact (IHa _ _ _ _ H HD Hb)|]. destruct (is_dotdot c); [exact (IHa _ _ _ _ H HD Hb)|].
+    destruct (get fs cwd) as [[n|s|es0]|] eqn:G; try discriminate.
+    destruct (assoc c es0) as [[n|s|e1]|] eqn:A; try discriminate.
+    + destruct a; [|discriminate]. inversion H. subst D. rewrite (get_snoc fs cwd c es0 G), A in HD. discriminate.
+    + rewrite last_nofollow_true in H. discriminate.
+    + exact (IHa _ _ _ _ H HD Hb).
+  - rewrite walk_nil in H. inversion H. exists (S lk). reflexivity.
+  - rewrite walk_cons in H. cbn [app]. rewrite walk_cons.
+    destruct (is_dot c); [exact (IHa _ _ _ _ H HD Hb)|]. destruct (is_dotdot c); [exact (IHa _ _ _ _ H HD Hb)|].
+    destruct (get fs cwd) as [[n|s|es0]|] eqn:G; try discriminate.
+    destruct (assoc c es0) as [[n|s|e1]|] eqn:A; try discriminate.
+    + destruct a; [|discriminate]. inversion H. subst D. rewrite (get_snoc fs cwd c es0 G), A in HD. discriminate.
+    + rewrite last_nofollow_true in H. rewrite (last_nofollow_app a b fl Hb), app_assoc.
+      exact (IHlk fl (tcomps s ++ a) _ b D es H HD Hb).
+    + exact (IHa _ _ _ _ H HD Hb).
+Qed.
+
+(* a resolution that did not end on a link is the same whether or not final links are followed *)
+Lemma walk_fl fs : forall lk rest cwd d,
+  walk lk fs false cwd rest = WOk d -> (forall t, get fs d <> Some (Link t)) -> walk lk fs true cwd rest = WOk d.
+Proof.
+  induction lk as [|lk IHlk]; intros rest; induction rest as [|c rest IHr]; intros cwd d H Hd;
+    try (rewrite walk_nil in *; exact H); rewrite walk_cons in H; rewrite walk_cons.
+  - destruct (is_dot c); [exact (IHr _ _ H Hd)|]. destruct (is_dotdot c); [exact (IHr _ _ H Hd)|].
+    destruct (get fs cwd) as [[n|s|es0]|] eqn:G; try discriminate.
+    destruct (assoc c es0) as [[n|s|e1]|] eqn:A; try discriminate.
+    + exact H.
+    + rewrite last_nofollow_true. destruct rest as [|r rest]; cbn [last_nofollow negb] in H; [|discriminate].
+      inversion H. subst d. exfalso. apply (Hd s). rewrite (get_snoc fs cwd c es0 G). exact A.
+    + exact (IHr _ _ H Hd).
+  - destruct (is_dot c); [exact (IHr _ _ H Hd)|]. destruct (is_dotdot c); [exact (IHr _ _ H Hd)|].
+    destruct (get fs cwd) as [[n|s|es0]|] eqn:G; try discriminate.
+    destruct (assoc c es0) as [[n|s|e1]|] eqn:A; try discriminate.
+    + exact H.
+    + rewrite last_nofollow_true. destruct rest as [|r rest]; cbn [last_nofollow negb] in H.
+      * inversion H. subst d. exfalso. apply (Hd s). rewrite (get_snoc fs cwd c es0 G). exact A.
+      * exact (IHlk _ _ _ H Hd).
+    + exact (IHr _ _ H Hd).
+Qed.
+
+Lemma dots_split c : is_dots c = false -> is_dot c = false /\ is_dotdot c = false.
+Proof. unfold is_dots. apply orb_false_iff. Qed.
+
+(* the last step, not following a final link: it ends on the entry itself *)
+Lemma walk_last_inv fs lk d es c d1 :
+  get fs d = Some (Dir es) -> is_dots c = false -> walk lk fs false d [c] = WOk d1 -> d1 = d ++ [c].
+Proof.
+  intros G Hc H. rewrite walk_cons in H. destruct (dots_split c Hc) as [E1 E2]. rewrite E1, E2, G in H.
+  destruct (assoc c es) as [[n|s|e1]|]; try discriminate.
+  - inversion H. reflexivity.
+  - cbn [last_nofollow negb] in H. inversion H. reflexivity.
+  - rewrite walk_nil in H. inversion H. reflexivity.
+Qed.
+
+Lemma walk_last fs lk fl d es c y :
+  get fs d = Some (Dir es) -> is_dots c = false -> assoc c es = Some y ->
+  fl = false \/ (forall t, y <> Link t) ->
+  walk lk fs fl d [c] = WOk (d ++ [c]).
+Proof.
+  intros G Hc A Hy. rewrite walk_cons. destruct (dots_split c Hc) as [E1 E2]. rewrite E1, E2, G, A.
+  destruct y as [n|s|e1]; [reflexivity | | apply walk_nil].
+  destruct Hy as [-> | Hy]; [reflexivity | exfalso; exact (Hy s eq_refl)].
+Qed.
+
+(* where a path that names a directory entry leads when a final link is not followed *)
+Lemma nofollow_loc fs P c d es y :
+  walk maxlinks fs true [] P = WOk d -> get fs d = Some (Dir es) -> is_dots c = false -> assoc c es = Some y ->
+  walk maxlinks fs false [] (P ++ [c]) = WOk (d ++ [c]).
+Proof.
+  intros W G Hc A.
+  destruct (walk_app fs maxlinks false P [] [c] d es W G) as [lk' ->]; [left; discriminate|].
+  apply (walk_last fs lk' false d es c y G Hc A). left. reflexivity.
+Qed.
+
+Lemma follow_loc fs P c d es y :
+  walk maxlinks fs true [] P = WOk d -> get fs d = Some (Dir es) -> is_dots c = false -> assoc c es = Some y ->
+  (forall t, y <> Link t) ->
+  walk maxlinks fs true [] (P ++ [c]) = WOk (d ++ [c]).
+Proof.
+  intros W G Hc A Hy.
+  destruct (walk_app fs maxlinks true P [] [c] d es W G) as [lk' ->]; [left; discriminate|].
+  apply (walk_last fs lk' true d es c y G Hc A). right. exact Hy.
+Qed.
+
+Lemma sys_unlink_snoc fs P c trail :
+  sys_unlink fs (P ++ [c]) trail =
+    match walk maxlinks fs true [] P with
+    | WErr e => (fs, Some e)
+    | WOk d =>
+      match get fs d with
+      | Some (Dir es) =>
+        if is_dots c then (fs, Some EISDIR)
+        else match assoc c es with
+             | None => (fs, Some ENOENT)
+             | Some (Dir _) => (fs, Some EISDIR)
+             | Some _ => if trail then (fs, Some ENOTDIR) else (del fs (d ++ [c]), None)
+             end
+      | _ => (fs, Some ENOTDIR)
+      end
+    end.
+Proof.
+  unfold sys_unlink. destruct (P ++ [c]) as [|a l] eqn:E0; [destruct P; discriminate|]. rewrite <- E0.
+  rewrite removelast_last, last_last. reflexivity.
+Qed.
+
+Lemma sys_rmdir_snoc fs P c :
+  sys_rmdir fs (P ++ [c]) =
+    match walk maxlinks fs true [] P with
+    | WErr e => (fs, Some e)
+    | WOk d =>
+      match get fs d with
+      | Some (Dir es) =>
+        if is_dotdot c then (fs, Some ENOTEMPTY)
+        else if is_dot c then (fs, Some EINVAL)
+        else match assoc c es with
+             | None => (fs, Some ENOENT)
+             | Some (Dir []) => (del fs (d ++ [c]), None)
+             | Some (Dir _) => (fs, Some ENOTEMPTY)
+             | Some _ => (fs, Some ENOTDIR)
+             end
+      | _ => (fs, Some ENOTDIR)
+      end
+    end.
+Proof.
+  unfold sys_rmdir. destruct (P ++ [c]) as [|a l] eqn:E0; [destruct P; discriminate|]. rewrite <- E0.
+  rewrite removelast_last, last_last. reflexivity.
+Qed.
+
+Lemma snoc_cases (l : list bytes) : l = [] \/ exists P c, l = P ++ [c].
+Proof.
+  destruct l as [|a l]; [left; reflexivity|]. right.
+  destruct (@exists_last _ (a :: l)) as [P [c E]]; [discriminate|]. exists P, c. exact E.
+Qed.
+
+(* a system call that changes the tree deletes exactly the entry its path names (a final link is not followed) *)
+Definition deleted_at (fs : node) (cs : list bytes) (fs' : node) : Prop :=
+  fs' = fs \/ exists L, L <> [] /\ walk maxlinks fs false [] cs = WOk L /\ fs' = del fs L.
+
+Ltac same H := inversion H; left; reflexivity.
+
+Lemma snoc_nonnil (d : list bytes) (c : bytes) : d ++ [c] <> [].
+Proof. destruct d; discriminate. Qed.
+
+Lemma unlink_loc fs cs trail fs' r : sys_unlink fs cs trail = (fs', r) -> deleted_at fs cs fs'.
+Proof.
+  destruct (snoc_cases cs) as [->|[P [c ->]]]; [intros H; same H|].
+  rewrite sys_unlink_snoc.
+  destruct (walk maxlinks fs true [] P) as [d|e] eqn:W; [|intros H; same H].
+  destruct (get fs d) as [[n|s|es]|] eqn:G; try (intros H; same H).
+  destruct (is_dots c) eqn:Hc; [intros H; same H|].
+  destruct (assoc c es) as [[n|s|e1]|] eqn:A; try (intros H; same H);
+    (destruct trail; [intros H; same H|]); intros H; inversion H; right; exists (d ++ [c]);
+    (split; [apply snoc_nonnil | split; [exact (nofollow_loc fs P c d es _ W G Hc A) | reflexivity]]).
+Qed.
+
+Lemma rmdir_loc fs cs fs' r : sys_rmdir fs cs = (fs', r) -> deleted_at fs cs fs'.
+Proof.
+  destruct (snoc_cases cs) as [->|[P [c ->]]]; [intros H; same H|].
+  rewrite sys_rmdir_snoc.
+  destruct (walk maxlinks fs true [] P) as [d|e] eqn:W; [|intros H; same H].
+  destruct (get fs d) as [[n|s|es]|] eqn:G; try (intros H; same H).
+  destruct (is_dotdot c) eqn:E2; [intros H; same H|]. destruct (is_dot c) eqn:E1; [intros H; same H|].
+  assert (Hc : is_dots c = false) by (unfold is_dots; rewrite E1, E2; reflexivity).
+  destruct (assoc c es) as [[n|s|e1]|] eqn:A; try (intros H; same H).
+  destruct e1 as [|x e1]; [|intros H; same H].
+  intros H; inversion H; right; exists (d ++ [c]).
+  split; [apply snoc_nonnil | split; [exact (nofollow_loc fs P c d es _ W G Hc A) | reflexivity]].
+Qed.
+
+Lemma libc_remove_loc fs cs trail fs' r : libc_remove fs cs trail = (fs', r) -> deleted_at fs cs fs'.
+Proof.
+  unfold libc_remove. destruct (sys_unlink fs cs trail) as [fs1 [e|]] eqn:U.
+  - destruct e; try (intros H; same H). apply rmdir_loc.
+  - intros H. inversion H. subst. exact (unlink_loc fs cs trail fs' None U).
+Qed.
+
+Lemma llvm_remove_loc fs cs trail fs' r : llvm_remove fs cs trail = (fs', r) -> deleted_at fs cs fs'.
+Proof.
+  unfold llvm_remove. destruct (sys_lstat fs cs trail); [intros H; same H | apply libc_remove_loc].
+Qed.
+
+Lemma deleted_at_wf fs cs fs' : wf fs = true -> deleted_at fs cs fs' -> wf fs' = true.
+Proof. intros Hw [->|[L [_ [_ ->]]]]; [exact Hw | apply wf_del; exact Hw]. Qed.
+
+Lemma name_ok_dots c : name_ok c = true -> is_dots c = false.
+Proof. unfold name_ok. rewrite andb_true_iff, negb_true_iff. intros [_ H]. exact H. Qed.
+
+(* the loop of _remove_all_r over a directory that resolves to D: whatever happens, only beneath D *)
+Lemma rm_loop_below (rec : node -> list bytes -> node * result) fs cs D es :
+  get fs D = Some (Dir es) -> walk maxlinks fs true [] cs = WOk D ->
+  (forall fs1 n D1 fs2 r2, wf fs1 = true ->
+      walk maxlinks fs1 true [] (cs ++ [n]) = WOk D1 -> walk maxlinks fs1 false [] (cs ++ [n]) = WOk D1 ->
+      rec fs1 (cs ++ [n]) = (fs2, r2) -> below D1 fs2 fs1 /\ wf fs2 = true) ->
+  forall names fs1 fs' r,
+    (forall n, In n names -> name_ok n = true) -> wf fs1 = true -> below D fs1 fs ->
+    rm_loop rec fs1 cs names = (fs', r) -> below D fs' fs /\ wf fs' = true.
+Proof.
+  intros G Wt Hrec. induction names as [|n ns IH]; intros fs1 fs' r Hn Hw Hb H.
+  - cbn [rm_loop] in H. inversion H. subst. split; assumption.
+  - cbn [rm_loop] in H.
+    destruct (sys_lstat fs1 (cs ++ [n]) false) as [e|k] eqn:L; [inversion H; subst; split; assumption|].
+    unfold sys_lstat in L. cbn [dotif] in L. rewrite app_nil_r in L.
+    destruct (walk maxlinks fs1 false [] (cs ++ [n])) as [d1|e] eqn:W1; [|discriminate].
+    destruct (get fs1 d1) as [t|] eqn:G1; [|discriminate]. inversion L. subst k. clear L.
+    assert (Hd1 : d1 = D ++ [n]).
+    { pose proof (walk_sub fs1 fs (proj1 Hb) _ _ _ _ _ W1) as W0.
+      destruct (walk_app fs maxlinks false cs [] [n] D es Wt G) as [lk' Happ]; [left; discriminate|].
+      rewrite Happ in W0. apply (walk_last_inv fs lk' D es n d1 G); [|exact W0].
+      apply name_ok_dots. apply Hn. left. reflexivity. }
+    subst d1.
+    destruct (match shallow t with KDir => rec fs1 (cs ++ [n]) | _ => llvm_remove fs1 (cs ++ [n]) false end)
+      as [fs2 r2] eqn:Estep.
+    assert (Hstep : below D fs2 fs1 /\ wf fs2 = true).
+    { assert (Hll : forall fsx rx, llvm_remove fs1 (cs ++ [n]) false = (fsx, rx) -> below D fsx fs1 /\ wf fsx = true).
+      { intros fsx rx Hl. pose proof (llvm_remove_loc _ _ _ _ _ Hl) as Hd.
+        split; [|exact (deleted_at_wf _ _ _ Hw Hd)].
+        destruct Hd as [->|[L0 [_ [WL ->]]]]; [apply below_refl|].
+        rewrite W1 in WL. inversion WL. apply below_del. apply comp_prefix_app. }
+      destruct t as [k|s|e1]; cbn [shallow] in Estep.
+      - exact (Hll _ _ Estep).
+      - exact (Hll _ _ Estep).
+      - assert (Wt1 : walk maxlinks fs1 true [] (cs ++ [n]) = WOk (D ++ [n])).
+        { apply walk_fl; [exact W1|]. intros t0. rewrite G1. discriminate. }
+        destruct (Hrec fs1 n (D ++ [n]) fs2 r2 Hw Wt1 W1 Estep) as [B2 W2].
+        split; [|exact W2]. apply (below_weaken D (D ++ [n])); [apply comp_prefix_app | exact B2]. }
+    destruct Hstep as [B2 W2]. pose proof (below_trans D _ _ _ B2 Hb) as B.
+    destruct r2 as [e|].
+    + inversion H. subst. split; assumption.
+    + apply (IH fs2 fs' r); [intros m Hm; apply Hn; right; exact Hm | exact W2 | exact B | exact H].
+Qed.
+
+Lemma wf_names fs D es n : wf fs = true -> get fs D = Some (Dir es) -> In n (map fst es) -> name_ok n = true.
+Proof.
+  intros Hw G Hin. pose proof (wf_get D fs _ Hw G) as Hd. rewrite wf_Dir in Hd.
+  apply andb_true_iff in Hd. destruct Hd as [_ Hl].
+  apply in_map_iff in Hin. destruct Hin as [[k v] [Hk Hin]]. cbn [fst] in Hk. subst k.
+  exact (proj1 (wfl_In es n v Hl Hin)).
+Qed.
+
+(* _remove_all_r on a path that resolves to D (the same whether or not a final link is followed):
+   whatever it does, for ANY tree and ANY path, happens at or beneath D *)
+Lemma rm_tree_r_below : forall fuel fs cs trail D fs' r,
+  wf fs = true -> walk maxlinks fs true [] cs = WOk D -> walk maxlinks fs false [] cs = WOk D ->
+  rm_tree_r fuel fs cs trail = (fs', r) -> below D fs' fs /\ wf fs' = true.
+Proof.
+  induction fuel as [|f IH]; intros fs cs trail D fs' r Hw Wt Wf H.
+  - cbn [rm_tree_r] in H. inversion H. subst. split; [apply below_refl | exact Hw].
+  - cbn [rm_tree_r] in H. unfold sys_readdir in H. rewrite Wt in H.
+    destruct (get fs D) as [[n|s|es]|] eqn:G;
+      try (inversion H; subst; split; [apply below_refl | exact Hw]).
+    destruct (rm_loop (fun fs'0 p => rm_tree_r f fs'0 p false) fs cs (map fst es)) as [fs1 r1] eqn:Lp.
+    destruct (rm_loop_below _ fs cs D es G Wt
+                (fun fs1 n D1 fs2 r2 Hw1 Wt1 Wf1 E => IH fs1 (cs ++ [n]) false D1 fs2 r2 Hw1 Wt1 Wf1 E)
+                (map fst es) fs fs1 r1 (fun n Hin => wf_names fs D es n Hw G Hin) Hw (below_refl D fs) Lp) as [B1 W1].
+    destruct r1 as [e|]; [inversion H; subst; split; assumption|].
+    pose proof (llvm_remove_loc _ _ _ _ _ H) as Hd. split; [|exact (deleted_at_wf _ _ _ W1 Hd)].
+    destruct Hd as [->|[L [_ [WL ->]]]]; [exact B1|].
+    pose proof (walk_sub fs1 fs (proj1 B1) _ _ _ _ _ WL) as W0. rewrite Wf in W0. inversion W0. subst L.
+    apply (below_trans D _ fs1); [apply below_del; apply comp_prefix_refl | exact B1].
+Qed.
+
+(* when unlink says EISDIR the path resolves to the same place whether or not a final link is followed *)
+Lemma unlink_eisdir fs cs trail fs1 :
+  sys_unlink fs cs trail = (fs1, Some EISDIR) ->
+  exists D, walk maxlinks fs true [] cs = WOk D /\ walk maxlinks fs false [] cs = WOk D.
+Proof.
+  destruct (snoc_cases cs) as [->|[P [c ->]]]; [intros _; exists []; split; apply walk_nil|].
+  rewrite sys_unlink_snoc.
+  destruct (walk maxlinks fs true [] P) as [d|e] eqn:W.
+  2: { intros H. inversion H. subst e. destruct (walk_err_kinds _ _ _ _ _ _ W) as [X|[X|X]]; discriminate. }
+  destruct (get fs d) as [[n|s|es]|] eqn:G; try (intros H; inversion H; fail).
+  destruct (is_dots c) eqn:Hc.
+  - intros _.
+    destruct (walk_app fs maxlinks true P [] [c] d es W G) as [l1 E1]; [left; discriminate|].
+    destruct (walk_app fs maxlinks false P [] [c] d es W G) as [l2 E2]; [left; discriminate|].
+    rewrite E1, E2, !walk_cons. unfold is_dots in Hc.
+    destruct (is_dot c).
+    + exists d. split; apply walk_nil.
+    + cbn [orb] in Hc. rewrite Hc. exists (removelast d). split; apply walk_nil.
+  - destruct (assoc c es) as [[n|s|e1]|] eqn:A.
+    + destruct trail; intros H; inversion H.
+    + destruct trail; intros H; inversion H.
+    + intros _. exists (d ++ [c]). split.
+      * apply (follow_loc fs P c d es _ W G Hc A). intros t. discriminate.
+      * exact (nofollow_loc fs P c d es _ W G Hc A).
+    + intros H. inversion H.
+Qed.
+
+Lemma unlink_never_eperm fs cs trail fs1 : sys_unlink fs cs trail <> (fs1, Some EPERM).
+Proof.
+  destruct (snoc_cases cs) as [->|[P [c ->]]]; [discriminate|].
+  rewrite sys_unlink_snoc.
+  destruct (walk maxlinks fs true [] P) as [d|e] eqn:W.
+  2: { intros H. inversion H. subst e. destruct (walk_err_kinds _ _ _ _ _ _ W) as [X|[X|X]]; discriminate. }
+  destruct (get fs d) as [[n|s|es]|]; try discriminate.
+  destruct (is_dots c); [discriminate|].
+  destruct (assoc c es) as [[n|s|e1]|]; try discriminate; destruct trail; discriminate.
+Qed.
+
+Lemma deleted_at_below fs cs fs' :
+  deleted_at fs cs fs' -> fs' = fs \/ exists L, walk maxlinks fs false [] cs = WOk L /\ below L fs' fs.
+Proof.
+  intros [->|[L [_ [W ->]]]]; [left; reflexivity|]. right. exists L. split; [exact W|].
+  apply below_del. apply comp_prefix_refl.
+Qed.
+
+(* LocalFileSystem::remove on ANY tree and ANY path (links on the way, "." and ".." included): either nothing
+   changes, or the path resolves - a final link not followed - to a canonical location L and everything that
+   changes lies at or beneath L *)
+Theorem remove_below fs cs trail fs' r :
+  wf fs = true -> remove fs cs trail = (fs', r) ->
+  wf fs' = true /\ (fs' = fs \/ exists L, walk maxlinks fs false [] cs = WOk L /\ below L fs' fs).
+Proof.
+  intros Hw H. unfold remove in H.
+  destruct (sys_unlink fs cs trail) as [fs1 [e|]] eqn:U.
+  - destruct (negb (errno_eqb e EPERM || errno_eqb e EISDIR)) eqn:C;
+      [inversion H; subst; split; [exact Hw | left; reflexivity]|].
+    assert (He : e = EISDIR).
+    { destruct e; cbn in C; try discriminate; [reflexivity|]. exfalso. exact (unlink_never_eperm _ _ _ _ U). }
+    subst e. destruct (unlink_eisdir _ _ _ _ U) as [D [Wt Wf]].
+    destruct (sys_lstat fs cs trail) as [e'|k]; [inversion H; subst; split; [exact Hw | left; reflexivity]|].
+    destruct k; try (inversion H; subst; split; [exact Hw | left; reflexivity]).
+    destruct (sys_rmdir fs cs) as [fs2 [e2|]] eqn:R.
+    + destruct (rm_tree_r_below _ _ _ _ D _ _ Hw Wt Wf H) as [B W].
+      split; [exact W | right; exists D; split; [exact Wf | exact B]].
+    + inversion H. subst. pose proof (rmdir_loc _ _ _ _ R) as Hd.
+      split; [exact (deleted_at_wf _ _ _ Hw Hd) | exact (deleted_at_below _ _ _ Hd)].
+  - inversion H. subst. pose proof (unlink_loc _ _ _ _ _ U) as Hd.
+    split; [exact (deleted_at_wf _ _ _ Hw Hd) | exact (deleted_at_below _ _ _ Hd)].
+Qed.
+
+(* ---------- the removal loop for ANY deletion list ---------- *)
+
+Lemma inside_mono roots L q : inside roots L = true -> comp_prefix L q = true -> inside roots q = true.
+Proof.
+  unfold inside. rewrite !existsb_exists. intros [r [Hin Hr]] Hq. exists r.
+  split; [exact Hin | exact (comp_prefix_trans _ _ _ Hr Hq)].
+Qed.
+
+Lemma stale_apply_cons fs d ds : stale_apply fs (d :: ds) = stale_apply (fst (remove_path fs d)) ds.
+Proof. reflexivity. Qed.
+
+Lemma stale_physical_gen roots : forall ds fs0 fs,
+  wf fs = true -> sub fs fs0 ->
+  (forall d L, In d ds -> walk maxlinks fs0 false [] (comps d) = WOk L -> inside roots L = true) ->
+  forall q, inside roots q = false ->
+  option_map shallow (get (stale_apply fs ds) q) = option_map shallow (get fs q).
+Proof.
+  induction ds as [|d ds IH]; intros fs0 fs Hw Hs Hin q Hq; [reflexivity|].
+  rewrite stale_apply_cons.
+  assert (Hrest : forall d' L, In d' ds -> walk maxlinks fs0 false [] (comps d') = WOk L -> inside roots L = true)
+    by (intros d' L Hd'; apply Hin; right; exact Hd').
+  destruct d as [|b s]; [exact (IH fs0 fs Hw Hs Hrest q Hq)|].
+  unfold remove_path.
+  destruct (remove fs (comps (b :: s)) (trail_of (b :: s))) as [fs1 r1] eqn:R. cbn [fst].
+  destruct (remove_below _ _ _ _ _ Hw R) as [Hw1 [->|[L [WL [S1 F1]]]]]; [exact (IH fs0 fs Hw Hs Hrest q Hq)|].
+  rewrite (IH fs0 fs1 Hw1 (sub_trans _ _ _ S1 Hs) Hrest q Hq). apply F1.
+  destruct (comp_prefix L q) eqn:E; [|reflexivity].
+  pose proof (walk_sub fs fs0 Hs _ _ _ _ _ WL) as W0.
+  rewrite (inside_mono roots L q (Hin _ L (or_introl eq_refl) W0) E) in Hq. discriminate.
+Qed.
+
+(* ANY tree, ANY deletion list (links on the way, "." and ".." allowed): if the location that each listed path
+   names in the tree - resolved as the kernel does, a final link not followed - lies at or beneath a root, then
+   what lstat reports of every canonical path that lies beneath none of the roots is the same before and after *)
+Theorem stale_apply_physical fs ds roots q :
+  wf fs = true ->
+  (forall d L, In d ds -> walk maxlinks fs false [] (comps d) = WOk L -> inside roots L = true) ->
+  inside roots q = false ->
+  option_map shallow (get (stale_apply fs ds) q) = option_map shallow (get fs q).
+Proof. intros Hw Hin Hq. exact (stale_physical_gen roots ds fs fs Hw (sub_refl fs) Hin q Hq). Qed.
+
+(* the lexical scope is a special case: without a link on the way the location named is the path itself *)
+Lemma walk_nolink_last lk fs cs : forall cwd t d,
+  get fs cwd = Some t -> plain_comps cs = true -> nolink t (removelast cs) = true ->
+  walk lk fs false cwd cs = WOk d -> d = cwd ++ cs.
+Proof.
+  induction cs as [|c cs IH]; intros cwd t d Hc Hp Hn H.
+  - rewrite walk_nil in H. inversion H. rewrite app_nil_r. reflexivity.
+  - cbn [plain_comps forallb] in Hp. apply andb_true_iff in Hp. destruct Hp as [Hk Hp].
+    destruct cs as [|c2 cs'].
+    + destruct t as [n|s|es].
+      * rewrite walk_cons in H. destruct (name_ok_nodots c Hk) as [E1 E2]. rewrite E1, E2, Hc in H. discriminate.
+      * rewrite walk_cons in H. destruct (name_ok_nodots c Hk) as [E1 E2]. rewrite E1, E2, Hc in H. discriminate.
+      * exact (walk_last_inv fs lk cwd es c d Hc (name_ok_dots c Hk) H).
+    + change (removelast (c :: c2 :: cs')) with (c :: removelast (c2 :: cs')) in Hn.
+      rewrite walk_cons in H. destruct (name_ok_nodots c Hk) as [E1 E2]. rewrite E1, E2, Hc in H.
+      destruct t as [n|s|es]; try discriminate. cbn [nolink] in Hn.
+      destruct (assoc c es) as [t'|] eqn:E; [|discriminate].
+      destruct t' as [n|s|es']; try discriminate.
+      assert (Hc' : get fs (cwd ++ [c]) = Some (Dir es')) by (rewrite (get_snoc fs cwd c es Hc); exact E).
+      rewrite (IH (cwd ++ [c]) (Dir es') d Hc' Hp Hn H), <- app_assoc. reflexivity.
+Qed.
+
+Lemma scope_location fs d L :
+  plain_comps (comps d) = true -> no_link_on_the_way fs (comps d) = true ->
+  walk maxlinks fs false [] (comps d) = WOk L -> L = comps d.
+Proof. intros Hp Hl W. exact (walk_nolink_last maxlinks fs (comps d) [] fs L eq_refl Hp Hl W). Qed.
+
+(* so the lexical theorem about roots follows from the physical one *)
+Lemma scope_inside fs prior expected roots :
+  roots <> [] -> stale_scope fs (to_delete prior expected roots) ->
+  forall d L, In d (to_delete prior expected roots) -> walk maxlinks fs false [] (comps d) = WOk L -> inside roots L = true.
+Proof.
+  intros Hr Hs d L Hin W. destruct (Hs d Hin) as [_ [Hp Hl]]. rewrite (scope_location fs d L Hp Hl W).
+  destruct (nothing_outside_roots prior expected roots d Hr Hin) as [_ [r [Hrin Hrd]]].
+  unfold inside. apply existsb_exists. exists r. split; assumption.
+Qed.
+
+(* non-vacuity of the statements about any path: in ex_through the listed path goes through a link; the location it
+   names is /elsewhere/x, which is NOT inside the root - the premise of stale_apply_physical excludes exactly this *)
+Example ex_physical_premise :
+  walk maxlinks ex_through false [] (comps (s_abs [n_root; n_lnk; n_x])) = WOk [n_else; n_x] /\
+  inside [s_abs [n_root]] [n_else; n_x] = false /\
+  inside [s_abs [n_root]] [n_root; n_lnk] = true.
+Proof. split; [vm_compute; reflexivity | split; vm_compute; reflexivity]. Qed.
+
+(* a link on the way that stays inside the root: /root/lnk -> /root/real, the listed path /root/lnk/x names
+   /root/real/x, which is inside; the premise holds and /elsewhere is untouched *)
+Definition n_real : bytes := [114; 101; 97; 108].
+Definition ex_inside : node :=
+  Dir [(n_root, Dir [(n_lnk, Link (s_abs [n_root; n_real])); (n_real, Dir [(n_x, File 7)])]);
+       (n_else, Dir [(n_x, File 8)])].
+
+Example ex_physical_instance :
+  wf ex_inside = true /\
+  (forall d L, In d [s_abs [n_root; n_lnk; n_x]] -> walk maxlinks ex_inside false [] (comps d) = WOk L ->
+               inside [s_abs [n_root]] L = true) /\
+  inside [s_abs [n_root]] [n_else; n_x] = false /\
+  get (stale_apply ex_inside [s_abs [n_root; n_lnk; n_x]]) [n_root; n_real; n_x] = None /\
+  get (stale_apply ex_inside [s_abs [n_root; n_lnk; n_x]]) [n_else; n_x] = Some (File 8).
+Proof.
+  split; [vm_compute; reflexivity|]. split.
+  - intros d L [<-|[]] W. vm_compute in W. inversion W. vm_compute. reflexivity.
+  - split; [vm_compute; reflexivity | split; vm_compute; reflexivity].
+Qed.
